@@ -6,6 +6,10 @@ import subprocess
 
 VERIF = os.path.dirname(os.path.dirname(os.path.abspath(__file__)))
 LEVELS = {
+    "C16": ("theorems: used interfaces = internal interfaces minus those flagged at both ends (order kept), exclusion iff both ends "
+            "flagged, nothing flagged => nothing excluded, re-insertion puts -1 exactly at the excluded positions and the restricted "
+            "solution in order elsewhere; flags recomputed from all pairs of directions and restricted-system solution compared by the oracle",
+            "4/C16", "Coq theorems on a Gallina model + differential correspondence + independent restricted solve"),
     "C02": ("theorems: one unknown per internal interface, row pairs exactly for the junctions whose equations received >=3 (<4 "
             "with ignore_four) coefficient pairs at rows 2k/2k+1, placement of versors by eid_from_vertex (under H_col), the "
             "stated tangent orientation over R, the code's sign-forcing rule proved equal to it under H_quad and refuted "
